@@ -97,8 +97,30 @@ func HarnessC12Rows() {
 		if err == nil {
 			r2, err := st.Query(vals)
 			verifAssert(err == nil, "C12: a prepared query failed")
+			// the statement is executed again, with other arguments, before the first result
+			// set is read: every result set keeps the rows of its own execution
+			var r3 sqldriver.Rows
+			var q3 drvQuery
+			if err == nil && len(q.args) > 0 {
+				var vals3 []sqldriver.Value
+				var args3 []string
+				for range q.args {
+					vals3 = append(vals3, "y")
+					args3 = append(args3, "y")
+				}
+				q3 = drvQuery{text: q.text, groupBy: q.groupBy, args: args3, match: c13gRebind(q.text)}
+				var err3 error
+				r3, err3 = st.Query(vals3)
+				verifAssert(err3 == nil, "C12: a prepared query failed when executed again")
+				if err3 != nil {
+					r3 = nil
+				}
+			}
 			if err == nil {
 				drvCheckRows("C12 prepared", q, rows, r2)
+			}
+			if r3 != nil && q3.match != nil {
+				drvCheckRows("C12 prepared, executed again before the first result set was read", q3, rows, r3)
 			}
 		}
 	}
